@@ -50,7 +50,7 @@ def build(seed, i, tier, avoid=True, force=None):
     if force and force.get("nobj"):
         nobj = force["nobj"]
     cfg = {"prop": ID, "family": fam, "kind": kind, "wc": rs.random() < 0.5, "threading": True, "oracles": [],
-           "uuid_seed": rs.getrandbits(32), "opcode": tier == "thorough" and rs.random() < 0.15}
+           "uuid_seed": rs.getrandbits(32), "opcode": rs.random() < (0.15 if tier == "thorough" else 0.06)}
     init = _thr.init_content(kind, fresh)
     fresh_file = mode == "unbuffered" and avoid and rs.random() < 0.2
     if fresh_file:
